@@ -80,7 +80,7 @@ func ScratchBase() string {
 // ---------------------------------------------------------------- worker
 
 // WorkerMain runs shard k of n and writes a Summary to outPath.
-func WorkerMain(p *Prop, tier string, seed int64, shard, n int, outPath, tracePath string, deadlineUnix int64) int {
+func WorkerMain(p *Prop, tier string, seed int64, shard, n int, outPath, tracePath string, deadlineUnix int64, skip map[int64]bool) int {
 	rec := newRec(tier, seed)
 	deadline := time.Unix(deadlineUnix, 0)
 	hang := time.Duration(envInt("VERIF_HANG_S", 120)) * time.Second
@@ -148,8 +148,12 @@ func WorkerMain(p *Prop, tier string, seed int64, shard, n int, outPath, tracePa
 	}()
 	g.emit = func(c interface{}) {
 		my := idx%int64(n) == int64(shard)
+		myIdx := idx
 		idx++
 		if !my {
+			return
+		}
+		if skip[myIdx] {
 			return
 		}
 		if g.stopped() {
@@ -157,7 +161,7 @@ func WorkerMain(p *Prop, tier string, seed int64, shard, n int, outPath, tracePa
 		}
 		if trace != nil {
 			b, _ := json.Marshal(c)
-			trace.Write(append(b, '\n'))
+			trace.Write(append([]byte(fmt.Sprintf("%d\t", myIdx)), append(b, '\n')...))
 		}
 		atomic.StoreInt64(&caseStart, time.Now().UnixNano())
 		rec.runCase(p, c)
@@ -356,7 +360,7 @@ func DriverMain(p *Prop, tier string) int {
 		}
 	}
 	results := make([]wres, n+nAlt)
-	runWorker := func(k int, trace bool) wres {
+	runWorker := func(k int, trace bool, skip []int64) (wres, int64, json.RawMessage) {
 		bin, shard, of := self, k, n
 		if k >= n {
 			bin, shard, of = alt, k-n, nAlt
@@ -369,6 +373,13 @@ func DriverMain(p *Prop, tier string) int {
 		tr := filepath.Join(scratch, fmt.Sprintf("w%d.trace", k))
 		if trace {
 			args = append(args, "--trace", tr)
+		}
+		if len(skip) > 0 {
+			var ss []string
+			for _, x := range skip {
+				ss = append(ss, fmt.Sprint(x))
+			}
+			args = append(args, "--skip", strings.Join(ss, ","))
 		}
 		cmd := exec.Command(bin, args...)
 		cmd.Env = append(os.Environ(), "VERIF_WORKER_SCRATCH="+filepath.Join(scratch, fmt.Sprintf("ws%d", k)))
@@ -395,30 +406,21 @@ func DriverMain(p *Prop, tier string) int {
 				}
 			}
 		}
-		if (r.sum == nil || !r.sum.Done) && trace && r.code != 3 {
-			if _, e := ioutil.ReadFile(tr); e != nil || fileEmpty(tr) {
-				if r.sum == nil || len(r.sum.Violations) == 0 {
-					s := &Summary{Counters: map[string]int64{}, Violations: map[string]*ViolationRec{}}
-					sig := "crash-while-enumerating:" + crashKind(r.log)
-					s.Violations[sig] = &ViolationRec{Signature: sig, Detail: "worker process died before executing a case (inside the real code driven by the case generator):\n" + r.log, Count: 1}
-					r.sum = s
-				}
-			}
-		}
+		culpritIdx := int64(-1)
+		var culprit json.RawMessage
 		if (r.sum == nil || !r.sum.Done) && trace {
-			// pin the culprit: last traced case
 			if b, e := ioutil.ReadFile(tr); e == nil {
 				lines := bytes.Split(bytes.TrimSpace(b), []byte("\n"))
-				if len(lines) > 0 && len(lines[len(lines)-1]) > 0 && (r.sum == nil || len(r.sum.Violations) == 0) {
-					s := &Summary{Counters: map[string]int64{}, Violations: map[string]*ViolationRec{}}
-					sig := "crash:" + crashKind(r.log)
-					s.Violations[sig] = &ViolationRec{Signature: sig, Detail: "worker process died while executing this case:\n" + r.log, Count: 1,
-						Examples: []json.RawMessage{append([]byte{}, lines[len(lines)-1]...)}}
-					r.sum = s
+				if len(lines) > 0 && len(lines[len(lines)-1]) > 0 {
+					last := lines[len(lines)-1]
+					if t := bytes.IndexByte(last, '\t'); t > 0 {
+						fmt.Sscan(string(last[:t]), &culpritIdx)
+						culprit = append(json.RawMessage{}, last[t+1:]...)
+					}
 				}
 			}
 		}
-		return r
+		return r, culpritIdx, culprit
 	}
 
 	var wg sync.WaitGroup
@@ -426,19 +428,83 @@ func DriverMain(p *Prop, tier string) int {
 		wg.Add(1)
 		go func(k int) {
 			defer wg.Done()
-			r := runWorker(k, false)
-			if r.sum == nil || !r.sum.Done {
-				if r.code == 3 {
-					results[k] = r
-					return
+			r, _, _ := runWorker(k, false, nil)
+			if r.sum != nil && r.sum.Done {
+				results[k] = r
+				return
+			}
+			if r.code == 3 {
+				results[k] = r
+				return
+			}
+			// the worker died or hung: re-run in trace mode, pin the culprit case, skip it and continue,
+			// so that one crashing case does not hide the rest of the shard
+			crashes := &Summary{Counters: map[string]int64{}, Violations: map[string]*ViolationRec{}}
+			addCrash := func(sig, detail string, ex json.RawMessage) {
+				v := crashes.Violations[sig]
+				if v == nil {
+					v = &ViolationRec{Signature: sig, Detail: detail}
+					crashes.Violations[sig] = v
 				}
-				// died or hung: rerun in trace mode to pin the case
-				if r.sum == nil || len(r.sum.Violations) == 0 {
-					r2 := runWorker(k, true)
-					if r2.sum != nil {
-						r = r2
+				v.Count++
+				if ex != nil && len(v.Examples) < 3 {
+					v.Examples = append(v.Examples, ex)
+				}
+			}
+			var skip []int64
+			for attempt := 0; attempt < 40; attempt++ {
+				r2, idx, culprit := runWorker(k, true, skip)
+				if r2.sum != nil && r2.sum.Done {
+					r = r2
+					break
+				}
+				if r2.code == 3 {
+					r = r2
+					break
+				}
+				if r2.sum != nil && len(r2.sum.Violations) > 0 && idx < 0 {
+					// hang report written by the watchdog
+					for sg, v := range r2.sum.Violations {
+						addCrash(sg, v.Detail, nil)
 					}
 				}
+				if idx < 0 {
+					addCrash("crash-while-enumerating:"+crashKind(r2.log), "worker process died before executing a case (inside the real code driven by the case generator):\n"+r2.log, nil)
+					r = r2
+					r.sum = nil
+					break
+				}
+				kind := crashKind(r2.log)
+				if r2.sum != nil {
+					for sg := range r2.sum.Violations {
+						if strings.HasPrefix(sg, "hang") {
+							kind = "hang"
+						}
+					}
+				}
+				sig := "crash:" + kind
+				if kind == "hang" {
+					sig = "hang"
+				}
+				addCrash(sig, "worker process died (or hung) while executing this case:\n"+r2.log, culprit)
+				skip = append(skip, idx)
+				r = r2
+				r.sum = nil
+			}
+			if r.sum == nil {
+				r.sum = &Summary{Counters: map[string]int64{}, Violations: map[string]*ViolationRec{}, Capped: true, CapNote: "a worker kept crashing; its shard is incomplete"}
+			}
+			if r.sum.Violations == nil {
+				r.sum.Violations = map[string]*ViolationRec{}
+			}
+			for sg, v := range crashes.Violations {
+				r.sum.Violations[sg] = v
+			}
+			if len(skip) > 0 {
+				if r.sum.Counters == nil {
+					r.sum.Counters = map[string]int64{}
+				}
+				r.sum.Counters["cases_that_killed_a_worker"] += int64(len(skip))
 			}
 			results[k] = r
 		}(k)
